@@ -103,17 +103,27 @@ def models(G):
     out["inside-scan"] = (ssm, (), {"s": {"o": jnp.array([0.3, -0.2, 0.8], dtype=jnp.float32)}}, [("tup", "s", "z")], lp_ssm)
 
     @G.gen
+    def comp_t(m):
+        y = normal(m + 2.0, 0.5) @ "y"
+        return y
+
+    @G.gen
+    def comp_f(m):
+        y = normal(m - 1.0, 1.5) @ "y"
+        return y
+
+    @G.gen
     def mix():
         z = flip(0.4) @ "z"
         m = normal(0.0, 1.0) @ "m"
-        y = normal.cond(normal)(z, jnp.where(z, m + 2.0, m - 1.0), jnp.where(z, 0.5, 1.5)) @ "y"
+        y = comp_t.cond(comp_f)(z, m) @ "c"
         return y
 
     def lp_mix(c):
         z = c["z"]
         return jnp.where(z, math.log(0.4), math.log(0.6)) + norm.logpdf(c["m"], 0.0, 1.0) + \
-            norm.logpdf(c["y"], jnp.where(z, c["m"] + 2.0, c["m"] - 1.0), jnp.where(z, 0.5, 1.5))
-    out["mixture-indicator"] = (mix, (), {"y": jnp.float32(1.2)}, [("str", "z"), ("str", "m"), ("union", ("str", "z"), ("str", "m"))], lp_mix)
+            norm.logpdf(c["c"]["y"], jnp.where(z, c["m"] + 2.0, c["m"] - 1.0), jnp.where(z, 0.5, 1.5))
+    out["mixture-indicator"] = (mix, (), {"c": {"y": jnp.float32(1.2)}}, [("str", "z"), ("str", "m"), ("union", ("str", "z"), ("str", "m"))], lp_mix)
     return out
 
 
